@@ -618,7 +618,55 @@ def r4_deadline_and_clock_share_a_resolution(ctx):
     ctx.floor('C13.R4', 'whole-second deadlines computed in the SQL stores', n, 3)
 
 
+MAGIC_TOKEN_FEATURES = {
+    'arbitrary_precision': 'an object whose first key is `$serde_json::private::Number` is read back as a number (or fails to load)',
+    'raw_value': 'an object whose first key is `$serde_json::private::RawValue` is read back as the JSON document inside its string (or fails to load)',
+}
+
+
+def r5_json_codec_features(ctx):
+    ctx.rule('C13.R5', 'P9 on the resolved build graph (`cargo metadata --offline --locked` with the sqlite feature: manifests and lock file only, nothing is '
+             'compiled or run): the SQL stores keep the state as JSON text and read it back into `serde_json::Value`. The feature set serde_json is '
+             'RESOLVED with for that build (features are unified across the graph, so a dependency can switch one on) contains none of the features '
+             'that make `Value::deserialize` interpret a magic key inside user data (`arbitrary_precision`, `raw_value`): with one of them `load` does '
+             'not return what `create` / `update` wrote for a state that contains the token.')
+    import json, subprocess
+    from ..engine import REPO
+    try:
+        r = subprocess.run(['cargo', 'metadata', '--offline', '--locked', '--format-version', '1', '--features', 'pavex_session_sqlx/sqlite'],
+                           cwd=REPO, stdout=subprocess.PIPE, stderr=subprocess.PIPE, text=True, timeout=300,
+                           env=dict(__import__('os').environ, CARGO_NET_OFFLINE='true'))
+        meta = json.loads(r.stdout)
+    except Exception as e:
+        ctx.need('C13.R5', 'cargo metadata of the workspace (%s)' % str(e)[:200], None)
+        return
+    pk = {p['id']: p for p in meta['packages']}
+    nodes = {n['id']: n for n in meta['resolve']['nodes']}
+    sqlx_store = [i for i, p in pk.items() if p['name'] == 'pavex_session_sqlx']
+    if not ctx.need('C13.R5', 'package pavex_session_sqlx in the workspace', sqlx_store):
+        return
+    # the packages the sqlite store is built with: its dependency closure
+    seen, work = set(sqlx_store), list(sqlx_store)
+    while work:
+        for d in nodes[work.pop()].get('dependencies', []):
+            if d not in seen:
+                seen.add(d)
+                work.append(d)
+    sj = [i for i in seen if pk[i]['name'] == 'serde_json']
+    ctx.floor('C13.R5', 'serde_json packages in the dependency closure of pavex_session_sqlx', len(sj), 1)
+    ctx.count('packages_in_the_closure_of_the_sqlx_store', len(seen))
+    for i in sj:
+        feats = sorted(nodes[i].get('features', []))
+        ctx.count('serde_json_features_resolved', len(feats))
+        for f, what in sorted(MAGIC_TOKEN_FEATURES.items()):
+            who = sorted({pk[n]['name'] for n in seen for d in pk[n]['dependencies'] if d['name'] == 'serde_json' and f in d.get('features', [])})
+            ctx.ob('C13.R5', 'json-codec-feature|serde_json|%s' % f, f not in feats, 'Cargo.lock',
+                   'serde_json %s is resolved with %s; `%s` %s' % (pk[i]['version'], feats, f,
+                                                                   'is off' if f not in feats else 'is ON (requested by %s): %s' % (who or '?', what)))
+
+
 def check(ctx):
+    r5_json_codec_features(ctx)
     r4_deadline_and_clock_share_a_resolution(ctx)
     r1_sqlite(ctx)
     r2_atomicity(ctx)
